@@ -7,7 +7,7 @@ from __future__ import annotations
 import ast
 
 from ..engine import Analysis
-from ..model import AnalysisError, FuncInfo, dotted, norm, walk_own, parents, kwarg, is_within, rejecting_guards, always_raises
+from ..model import AnalysisError, FuncInfo, dotted, norm, walk_own, parents, kwarg, is_within, rejecting_guards, always_raises, shape
 from ..report import Collector
 from . import prop
 
@@ -204,6 +204,37 @@ def check_c27(A: Analysis, col: Collector):
             col.fail("C27.modes", gb.qualname, f"binding-mode-downgrade:{key}", f"`{norm(n, 70)}` overwrites an existing binding of the same host directory unconditionally: a directory already bound 'rw' (copied input or output) becomes 'ro' when a later read-only input lives in it", A.loc(n))
         else:
             col.ok("C27.modes", f"bindings[{key}] keeps an existing 'rw' mode", A.loc(n))
+    # the lookups that protect an existing 'rw' binding use the key the store uses: a membership test on
+    # another key expression (host_path vs str(host_path)) never matches, and the protection is dead
+    for f in [gb] + list(gb.nested.values()):
+        stores = {norm(n.targets[0].slice) for n in walk_own(f.node) if isinstance(n, ast.Assign) and isinstance(n.targets[0], ast.Subscript) and norm(n.targets[0].value) == "bindings"}
+        lookups = []
+        for n in walk_own(f.node):
+            if isinstance(n, ast.Compare) and len(n.ops) == 1 and isinstance(n.ops[0], (ast.In, ast.NotIn)) and norm(n.comparators[0]) == "bindings":
+                lookups.append((n, norm(n.left)))
+            if isinstance(n, ast.Subscript) and isinstance(n.ctx, ast.Load) and norm(n.value) == "bindings":
+                lookups.append((n, norm(n.slice)))
+            if isinstance(n, ast.Call) and isinstance(n.func, ast.Attribute) and n.func.attr == "get" and norm(n.func.value) == "bindings" and n.args:
+                lookups.append((n, norm(n.args[0])))
+        for n, k in lookups:
+            if not stores:
+                continue
+            if k in stores:
+                col.ok("C27.modes", f"{f.name}: `{norm(n, 40)}` looks the binding up under the key it is stored under (`{k}`)", A.loc(n))
+            else:
+                col.fail("C27.modes", f.qualname, f"binding-key-mismatch:{shape(n, 30)}", f"`{norm(n, 50)}` looks an existing binding up under `{k}` but bindings are stored under {sorted(stores)}: the keys never compare equal (Path vs str), the test that keeps an existing 'rw' mode is dead and a directory bound read-write by an output / copied input is re-bound 'ro' by a later read-only input in the same directory", A.loc(n))
+    # every file-typed field with a value gets its directory bound: the field loop skips on an unset value only
+    floops = [l for l in walk_own(gb.node) if isinstance(l, ast.For) and any(q.endswith("get_fields") for c in ast.walk(l.iter) if isinstance(c, ast.Call) for q in A.callee_names(c, gb))]
+    A.anchor("loop over the task's fields in get_bindings", floops)
+    for l in floops:
+        fvar = l.target.id if isinstance(l.target, ast.Name) else None
+        for c_ in [n for n in ast.walk(l) if isinstance(n, ast.Continue)]:
+            g = next((p_ for p_ in parents(c_) if isinstance(p_, ast.If)), None)
+            reads_field = g is not None and any(isinstance(k, ast.Attribute) and isinstance(k.value, ast.Name) and k.value.id == fvar for k in ast.walk(g.test))
+            if g is not None and not reads_field and isinstance(g.test, ast.UnaryOp) and isinstance(g.test.op, ast.Not):
+                col.ok("C27.modes", f"the field loop skips a field only when its value is unset (`{norm(g.test)}`)", A.loc(c_))
+            else:
+                col.fail("C27.modes", gb.qualname, f"file-field-skipped:{shape(g.test, 40) if g is not None else 'unconditional'}", f"`continue` under `{norm(g.test, 60) if g is not None else 'no condition'}` leaves file-typed fields with a value without a bind mount (and without a remapped path): a file that another field's argstr / formatter refers to is not visible inside the container", A.loc(c_))
     cr = [n for f, n in assigns if "cache_root" in norm(n.targets[0].slice)]
     if not cr:
         col.fail("C27.modes", gb.qualname, "cache-root-not-bound", "the cache root is not added to the bindings", A.loc(gb.node))
